@@ -334,6 +334,20 @@ def discharge(engine, ob, want_model=True, quick_ms=None):
     dt = time.time() - t0
     if r == z3.unsat:
         return "discharged", "z3", dt, None
+    if r != z3.sat and ("PS" in engine.specfns or "card" in engine.specfns):
+        # bag abstraction: the prodset axioms only fire on syntactic
+        # store-terms; derive the needed instances by set matching
+        hints = ps_hints(engine, ob)
+        if hints:
+            s2 = solver_for(engine, ob.pc)
+            for h in hints:
+                s2.add(h)
+            s2.add(z3.Not(ob.goal))
+            r2 = s2.check()
+            if r2 == z3.unsat:
+                return "discharged", "z3+sethints", time.time() - t0, None
+            s, r = s2, r2
+            dt = time.time() - t0
     detail = None
     if r == z3.sat:
         try:
@@ -358,6 +372,98 @@ def discharge(engine, ob, want_model=True, quick_ms=None):
         if res == "sat":
             return "refuted", backend, time.time() - t0, None
     return "unknown", "z3", time.time() - t0, str(s.reason_unknown())
+
+
+def _subterms(e, acc, seen):
+    if e.get_id() in seen:
+        return
+    seen.add(e.get_id())
+    acc.append(e)
+    if z3.is_quantifier(e):
+        return
+    for c in e.children():
+        _subterms(c, acc, seen)
+
+
+def ps_hints(engine, ob):
+    """Instances of the prodset/card axioms found by *semantic* set matching:
+    for PS(S_new) in the goal and PS(S_old) in the path condition, if the
+    quantifier-free part of the path condition entails
+        S_new == store(S_old, k, True) and not S_old[k]      (k a key term)
+    then PS(S_new) == sz[k] * PS(S_old) is an instance of the axiom (and
+    S_new == S_old gives equality by congruence).  Every hint is entailed by
+    axioms + path condition, so adding it is sound."""
+    fns = {}
+    for name in ("PS", "card"):
+        if name in engine.specfns:
+            fns[name] = engine.specfns[name][0]
+    qf = [p for p in ob.pc if not _has_quantifier(p)]
+    acc, seen = [], set()
+    for e in list(ob.pc) + [ob.goal]:
+        _subterms(e, acc, seen)
+    apps = {n: [] for n in fns}
+    keys = []
+    for t in acc:
+        if z3.is_app(t):
+            d = t.decl()
+            for n, f in fns.items():
+                if d.eq(f):
+                    apps[n].append(t)
+            if t.sort() == Ty.IntS and z3.is_const(t) and t.decl().kind() == z3.Z3_OP_UNINTERPRETED and "pick" in t.decl().name():
+                keys.append(t)
+            if z3.is_store(t):
+                k = t.arg(1)
+                if k.sort() == Ty.IntS:
+                    keys.append(k)
+    ukeys = []
+    for k in keys:
+        if not any(k.eq(x) for x in ukeys):
+            ukeys.append(k)
+    goal_acc, gseen = [], set()
+    _subterms(ob.goal, goal_acc, gseen)
+    goal_ids = {t.get_id() for t in goal_acc}
+
+    def entails(f):
+        sol = z3.Solver()
+        sol.set("timeout", 1500)
+        for p in qf:
+            sol.add(p)
+        sol.add(z3.Not(f))
+        return sol.check() == z3.unsat
+
+    hints = []
+    budget = 60
+    for n, lst in apps.items():
+        news = [t for t in lst if t.get_id() in goal_ids]
+        for tn in news:
+            Sn = tn.arg(0)
+            for to in lst:
+                if to.get_id() == tn.get_id() or budget <= 0:
+                    continue
+                So = to.arg(0)
+                if n == "PS" and not tn.arg(1).eq(to.arg(1)):
+                    continue
+                budget -= 1
+                if entails(Sn == So):
+                    hints.append(Sn == So)
+                    continue
+                for k in ukeys:
+                    if budget <= 0:
+                        break
+                    budget -= 1
+                    if entails(z3.And(Sn == z3.Store(So, k, True), z3.Not(So[k]))):
+                        if n == "PS":
+                            hints.append(tn == tn.arg(1)[k] * to)
+                        else:
+                            hints.append(tn == to + 1)
+                        break
+                    if entails(z3.And(Sn == z3.Store(So, k, False), So[k])):
+                        if n == "PS":
+                            hints.append(to == to.arg(1)[k] * tn)
+                        else:
+                            hints.append(tn == to - 1)
+                        break
+    return hints
 
 
 def run_cli(cmd, smt):
